@@ -114,7 +114,8 @@ def check(ctx):
                 for p in ps:
                     if any(a == st["path"] and nm == "callback" for a, nm in lib.fields_in(p)):
                         touchers.add(lib.fkey(body))
-        ctx.check(touchers <= {"SystemCommandStorage::new", "SystemCommandStorage::insert", "SystemCommandStorage::take"}, "C13.a",
+        NM = A.names(prog)
+        ctx.check(touchers <= {"SystemCommandStorage::new", NM["storage_insert"], NM["storage_take"]}, "C13.a",
                   "SystemCommandStorage.callback:only-via-new-take-insert", "%s:%d" % (st["file"], st["line"]), "field touched by %s" % sorted(touchers),
                   "the stored callback is accessed outside new/take/insert: %s" % sorted(touchers))
     except mir.AnchorLost as e:
